@@ -199,6 +199,20 @@ def check_case(case):
     if out.exc is not None:
         return result([], False, classes + [f"exception:{type(out.exc).__name__}(C13)"])
     if not (out.stop <= tol):
+        # No iteration-count oracle in general.  One exception: above alpha_max with an intercept as the only
+        # unpenalised part, the cold start w = 0 already has the optimal coefficients and what remains is a smooth
+        # convex problem in ONE variable (the intercept), which the reference solves by a few Newton steps (eta0).
+        # A run that spends its whole budget (>= 100 outer x 500 inner iterations) and still predicts far from the
+        # null model does not "return the optimal unpenalised part".
+        if case["side"] == "above" and fi and not len(unpen) and out.w is not None and np.all(np.isfinite(np.asarray(out.w, float))):
+            W = np.asarray(out.w, float)
+            eta = X @ W[:p] + W[p]
+            dev = float(np.max(np.abs(eta - eta0)))
+            if dev > 1e-2 * (1 + float(np.max(np.abs(eta0)))):
+                return result([Viol(dict(sig, kind="null-model-not-reached"),
+                                    f"{solver}: alpha = alpha_max*(1+{eps}): after the full budget (stop_crit={out.stop:.2e} > tol) the fit predicts "
+                                    f"{eta.ravel()[:3].tolist()} but the loss-minimising intercept-only model predicts {eta0.ravel()[:3].tolist()}")],
+                              True, classes + ["not-converged"])
         return result([], False, classes + ["not-converged(inconclusive)"])
     W = np.asarray(out.w, float)
     coef = W[:p]
